@@ -20,6 +20,28 @@ from mir import Agg, Bin, Call, Cast, Const, Deref, Discr, Field, Named, Ref, Un
 MASKS = {"u8": 0xFF, "u16": 0xFFFF, "u32": 0xFFFFFFFF, "u64": (1 << 64) - 1, "usize": (1 << 64) - 1}
 
 
+# documented, pure classification functions of core on u8 / char (ASCII range); the argument is the scalar value
+_ASCII = {
+    "is_ascii": lambda v: v < 128,
+    "is_ascii_uppercase": lambda v: 65 <= v <= 90,
+    "is_ascii_lowercase": lambda v: 97 <= v <= 122,
+    "is_ascii_alphabetic": lambda v: 65 <= v <= 90 or 97 <= v <= 122,
+    "is_ascii_digit": lambda v: 48 <= v <= 57,
+    "is_ascii_alphanumeric": lambda v: 48 <= v <= 57 or 65 <= v <= 90 or 97 <= v <= 122,
+    "is_ascii_hexdigit": lambda v: 48 <= v <= 57 or 65 <= v <= 70 or 97 <= v <= 102,
+    "is_ascii_whitespace": lambda v: v in (9, 10, 12, 13, 32),
+    "is_ascii_control": lambda v: v < 32 or v == 127,
+    "is_ascii_graphic": lambda v: 33 <= v <= 126,
+    "is_ascii_punctuation": lambda v: 33 <= v <= 47 or 58 <= v <= 64 or 91 <= v <= 96 or 123 <= v <= 126,
+    "to_ascii_lowercase": lambda v: v + 32 if 65 <= v <= 90 else v,
+    "to_ascii_uppercase": lambda v: v - 32 if 97 <= v <= 122 else v,
+}
+STD_PURE = {}
+for _t in ("u8", "char"):
+    for _n, _f in _ASCII.items():
+        STD_PURE["%s::%s" % (_t, _n)] = _f
+
+
 def eval_expr(e, env, roles=None):
     """Evaluate an expression tree to an int (bools as 0/1) given env {shape: value}; None if
     it depends on anything else."""
@@ -92,10 +114,15 @@ def eval_expr(e, env, roles=None):
         return None
     if isinstance(e, Call) and e.callee in q.TRANSPARENT_CALLS and len(e.args) == 1:
         return eval_expr(e.args[0], env, roles)
+    if isinstance(e, Call) and len(e.args) == 1:
+        f = STD_PURE.get(q.callee_id(e.t))
+        if f is not None:
+            v = eval_expr(e.args[0], env, roles)
+            return None if v is None else int(f(v))
     return None
 
 
-def reach(body, start, env, roles=None, stop=(), kill_on_call=None):
+def reach(body, start, env, roles=None, stop=(), kill_on_call=None, known_only=False):
     """Blocks reachable from `start` under env, with path-sensitive constant propagation for
     locals that are assigned evaluable values on the way (e.g. the bool temporaries of `||`
     chains). `stop`: blocks not expanded (still included). kill_on_call(t) -> True makes the
@@ -110,7 +137,10 @@ def reach(body, start, env, roles=None, stop=(), kill_on_call=None):
             continue
         seen.add(state)
         b, known, store = state
-        out.add(b)
+        if known or not known_only:
+            out.add(b)
+        if known_only and not known:
+            continue
         if b in stop:
             continue
         st = dict(store)
